@@ -1,5 +1,6 @@
 import CqlVerif.Spec.LockDiscipline
 import CqlVerif.Gen.LockFacts
+import CqlVerif.Lemmas.Lockset
 /-!
 # C18 — Concurrent operation is free of data races
 -/
@@ -20,5 +21,22 @@ example : (fields Gen.LockFacts.facts).contains "proxy.Proxy.sessions" = true :=
 example : factOk (.guarded "proxy.Proxy.sessionsMu" [] [])
     ("proxy.Proxy.sessions", "W(map)", ["proxy.Proxy.sessionsMu/R"], "(*proxy.Proxy).maybeCreateSessionUnlocked",
      ["(*proxycore.Conn).read>(*proxy.client).Receive"]) = false := by decide
+
+/-- **guarded_accesses_ordered** — what the discipline buys, for every execution of every number
+of goroutines (traces of lock operations admitted by Go's mutex semantics and plain accesses):
+whenever a goroutine accesses a variable while holding the variable's lock, and another goroutine
+accesses it later while holding the same lock, one of them in write mode - which is the case for
+every conflicting pair when writers hold the write lock - the first goroutine's unlock and the
+second one's subsequent lock lie between the two accesses: the pair is ordered by happens-before
+and is not a data race. -/
+theorem guarded_accesses_ordered (tr mid : List Lockset.Ev) (H H2 : Lockset.Held)
+    (t1 t2 : Nat) (l : Nat) (m1 m2 : Bool)
+    (hreach : Lockset.steps [] tr = some H)                 -- the state at the first access
+    (h1 : (t1, l, m1) ∈ H)                                   -- … made while holding l
+    (hmid : Lockset.steps H mid = some H2)                   -- what happens until the second access
+    (h2 : (t2, l, m2) ∈ H2)                                  -- … made while holding l
+    (hne : t1 ≠ t2) (hw : m1 = true ∨ m2 = true) :
+    ∃ a b c, mid = a ++ Lockset.Ev.rel t1 l m1 :: (b ++ Lockset.Ev.acq t2 l m2 :: c) :=
+  Lockset.ordered_by_unlock_lock H H2 mid t1 t2 l m1 m2 (Lockset.reachable_inv tr H hreach) h1 hmid h2 hne hw
 
 end CqlVerif.C18
